@@ -85,3 +85,6 @@ package counts
 //@ lemma umax64_comm: forall a, b Count64 :: umax64(a, b) == umax64(b, a)
 //@ lemma umax64_assoc: forall a, b, c Count64 :: umax64(umax64(a, b), c) == umax64(a, umax64(b, c))
 //@ lemma umax64_idem: forall a Count64 :: umax64(a, a) == a
+
+//@ property C05: NewCount32 (Count32).ToUint64 (Count32).Plus (*Count32).Increment NewCount64 (Count64).ToUint64 (Count64).Plus (*Count64).Increment lemma/plus32_comm lemma/plus32_assoc lemma/plus64_comm lemma/plus64_assoc
+//@ property C02: (*Count32).AdjustMaxIfNecessary (*Count32).AdjustMaxIfPossible (*Count64).AdjustMaxIfNecessary (*Count64).AdjustMaxIfPossible lemma/umax32_comm lemma/umax32_assoc lemma/umax32_idem lemma/umax64_comm lemma/umax64_assoc lemma/umax64_idem
